@@ -413,12 +413,28 @@ DeliverBlock(b) ==
   /\ ndel' = ndel + 1
   /\ UNCHANGED tree
 
+\* sync_block_headers takes the caller's sync head sh (any header the caller knows; the header-sync loop
+\* tracks the tip of the fork it is following there).  It must not influence the node's state: the header
+\* head moves on more work than the stored header head only.  It only decides the returned new sync head:
+\* Some(last) iff sh is not on the chain of the batch's last header or the last header has more work.
+SyncRet(sh, lastb) == IF ~IsAnc(sh, lastb) \/ Work(lastb) > Work(sh) THEN "some" ELSE "none"
+DeliverHeadersFrom(b, k, sh) ==
+  /\ AllMinted /\ ndel < MaxDeliveries /\ ~HeadersFirst
+  /\ k \in 1..Height(b) /\ k <= 3
+  /\ sh \in n.hdrs
+  /\ LET r == ProcHeaders(n, LastK(b, k)) IN
+       /\ n' = r.nd
+       /\ last' = [k |-> "SyncHeaders", b |-> b, res |-> IF r.ok THEN "ok" ELSE "reject", cnt |-> k,
+                    sh |-> sh, ret |-> IF r.ok THEN SyncRet(sh, b) ELSE "-"]
+  /\ ndel' = ndel + 1
+  /\ UNCHANGED tree
 DeliverHeaders(b, k) ==
   /\ AllMinted /\ ndel < MaxDeliveries /\ ~HeadersFirst
   /\ k \in 1..Height(b) /\ k <= 3
   /\ LET r == ProcHeaders(n, LastK(b, k)) IN
        /\ n' = r.nd
-       /\ last' = [k |-> "SyncHeaders", b |-> b, res |-> IF r.ok THEN "ok" ELSE "reject", cnt |-> k]
+       /\ last' = [k |-> "SyncHeaders", b |-> b, res |-> IF r.ok THEN "ok" ELSE "reject", cnt |-> k,
+                    sh |-> n.hhead, ret |-> IF r.ok THEN SyncRet(n.hhead, b) ELSE "-"]
   /\ ndel' = ndel + 1
   /\ UNCHANGED tree
 
